@@ -236,14 +236,14 @@ _u6 = UNITS["U6"]
 _u7_old = UNITS["U7"]
 _extra_types = [("struct", "compress.rs", "CompressedNameResult"), ("consts", "compress.rs", ["MAX_SUFFIX_LEN", "MAX_SUFFIXES"]),
                 ("struct", "compress.rs", "Suffix", ["pubfields"]), ("struct", "compress.rs", "SuffixDict", ["pubfields", "Default"]),
-                ("traitimpl", "compress.rs", "Default for Suffix", "*"), ("file", "spec/rename.rs"), ("file", "spec/dict.rs"), ("file", "spec/ptr.rs"), ("file", "spec/cacc.rs")]
+                ("traitimpl", "compress.rs", "Default for Suffix", "*"), ("file", "spec/rename.rs"), ("file", "spec/dict.rs"), ("file", "spec/ptr.rs"), ("file", "spec/cacc.rs"), ("file", "spec/crt.rs")]
 _parts = []
 for _p in _u6["parts"]:
     _parts.append(_p)
     if _p == ("file", "spec/pfedit.rs"):
         _parts.extend(_extra_types)
 _parts += [("impl", "compress.rs", "Compress", ["indirections", "copy_compressed_name_with_base_offset", "copy_compressed_name", "compress_rdata", "compress"]),
-           ("impl", "compress.rs", "SuffixDict", "*")]
+           ("impl", "compress.rs", "SuffixDict", "*"), ("file", "spec/clients_u7.rs")]
 UNITS["U7"] = {
     "title": "compression (C06)",
     "flags": ["--no-lifetime"], "rlimit": 100,
